@@ -195,6 +195,18 @@ int main(int argc, char** argv)
                                 ctx.each([&] { return chk.describe(W, av, {}); }, [&](mc::Report& rep) { chk.run_case(W, av, {}, rep, idx); });
                             }
                         }
+                // three features together: a reversible toggle that is also bound to an environment variable - the command line
+                // token (`--no-tog` in particular) must be accounted for whatever the variable says
+                {
+                    Decl E;
+                    E.items = { Item::tog("tog", "t", true).with_env("VP_T"), Item::tog("ugg", "u", true, 1).with_env("VP_U"), Item::opt("opt", "o") };
+                    E.accepted = 1;
+                    for (auto& env : std::vector<Env>{ {}, { { "VP_T", "1" }, { "VP_U", "0" } }, { { "VP_T", "0" }, { "VP_U", "TRUE" } }, { { "VP_T", "yes" } } })
+                        for_all_vectors(alphabet(E), a.asan() ? 1 : 2, ctx, [&](const std::vector<std::string>& av) {
+                            long idx = ctx.next;
+                            ctx.each([&] { return chk.describe(E, av, env); }, [&](mc::Report& rep) { chk.run_case(E, av, env, rep, idx); });
+                        });
+                }
                 // particular values: every byte value as the one letter of a short bundle that is not a declared toggle - in
                 // front of, behind and between declared toggle letters (an implementation that indexes a table or a bit set
                 // with the letter must not alias any of them)
